@@ -126,9 +126,29 @@ func selectRecvValue(sel *ssa.Select, k int) ssa.Value {
 // isQuorumFunctionSlot matches a value loaded from a struct field named
 // QuorumFunction (of QuorumCallData / CorrectableCallData).
 func isQuorumFunctionSlot(v ssa.Value) bool {
-	return sx.All(sx.Origins(v), func(o sx.Origin) bool {
+	if sx.All(sx.Origins(v), func(o sx.Origin) bool {
 		return o.Kind == sx.KField && o.Field != nil && o.Field.Name() == "QuorumFunction"
-	})
+	}) {
+		return true
+	}
+	// a copy of the slot kept under another name (call state with its own field, a parameter):
+	// recognised by the quorum-function signature func(request, map[node id]reply) (value, [level,] bool)
+	sig, ok := v.Type().Underlying().(*types.Signature)
+	if !ok || sig.Params().Len() != 2 || sig.Results().Len() < 2 || sig.Results().Len() > 3 {
+		return false
+	}
+	const pr = "google.golang.org/protobuf/reflect/protoreflect"
+	if !isNamed(sig.Params().At(0).Type(), pr, "ProtoMessage") || !isNamed(sig.Results().At(0).Type(), pr, "ProtoMessage") {
+		return false
+	}
+	m, ok := sig.Params().At(1).Type().Underlying().(*types.Map)
+	if !ok || !isNamed(m.Elem(), pr, "ProtoMessage") {
+		return false
+	}
+	if b, ok := sig.Results().At(sig.Results().Len() - 1).Type().Underlying().(*types.Basic); !ok || b.Kind() != types.Bool {
+		return false
+	}
+	return sx.All(sx.Origins(v), func(o sx.Origin) bool { return o.Kind == sx.KField || o.Kind == sx.KParam || o.Kind == sx.KFreeVar })
 }
 
 // findReplyLoops locates the reply loops of the runtime package.
